@@ -242,6 +242,9 @@ def make_fn(geo, pipe, opts, twin=False):
         d2 = CAP['written']
         cs.append(tree_equal(d1, d2))
         cs.append(state_equal(config_state(m), config_state(m2)))        # the same configuration, not merely the same file
+        # ... and the configuration the caller asked for (arguments of the setters), not only what the first manager happened to store
+        asked = str(opts.get('flow_type', 'borehole')).upper()
+        cs += [m._design.flow_type.name == asked, m2._design.flow_type.name == asked, str(d1['design']['flow_type']).upper() == asked]
         if 'rot_min' in e.inputs:
             # counterexamples are preferred at angles whose degree -> radian -> degree conversion is inexact in binary64
             e.prefer.append(z3.And(z3.Or(e.inputs['rot_min'] == 30, e.inputs['rot_min'] == -30), z3.Or(e.inputs['rot_max'] == 30, e.inputs['rot_max'] == 7)))
@@ -279,6 +282,11 @@ def make_replay(geo, pipe, opts):
             if errs != 0 or rc != 0 or 'mgr' not in got:
                 return True, info
             got['mgr'].write_input_file(f2)
+            asked = str(opts.get('flow_type', 'borehole')).upper()
+            stored = (m._design.flow_type.name, got['mgr']._design.flow_type.name, str(json.loads(f1.read_text())['design']['flow_type']).upper())
+            if any(x != asked for x in stored):
+                info['flow_type'] = dict(asked=asked, first_manager=stored[0], reloaded_manager=stored[1], written=stored[2])
+                return True, info
             same = f1.read_text() == f2.read_text()
             if same and not bool(state_equal(config_state(m), config_state(got['mgr']))):
                 a, b = config_state(m), config_state(got['mgr'])
